@@ -81,11 +81,12 @@ func TestGovcBoundedSortedSets(t *testing.T) {
 		"zadd z 1 a", "zadd z 2 b", "zadd z 3 c", "zadd z 2 c", "zadd z 1 d", "zadd z -1 e", "zadd z 2 a", "zadd z 5 f 4 g 6 h",
 		"zadd z nx 9 a", "zadd z XX 9 b", "zadd z xx 7 q", "zadd z gt 0 a", "zadd z GT 8 a", "zadd z lt 0 b", "zadd z ch 2 a 2 b 9 n",
 		"zadd z incr 1 a", "zadd z incr 1 new", "zadd z xx incr 1 nosuch", "zadd z nx incr 1 a", "zadd z 1.5 a", "zadd z inf i", "zadd z -inf j",
+		"zadd z gt incr 3 a", "zadd z GT INCR -3 a", "zadd z lt incr 5 b", "zadd z lt incr -5 b",
 		"zadd z nan a", "zadd z nx xx 1 a", "zadd z 1 a 2", "zadd z ch 1 fresh",
 		"zrem z a", "zrem z b c", "zrem z nosuch", "zrem z a b c d e f g h i j n q new fresh",
 	}
 	depth := 3
-	third := 22
+	third := 26
 	if os.Getenv("GOVC_BOUNDED_TIER") == "thorough" {
 		third = len(pool)
 	}
